@@ -17,8 +17,8 @@
 //   S <d>                                              sleep_for
 //   P <host> <pstate>                                  Host::set_pstate
 //   E <id> <host> <flops> <bound|-1> <priority>        Exec::init()->set_host()...->start()->wait()
-//   C <id> <src> <dst> <bytes> <rate|-1>               Comm::sendto_init(src,dst)...->start()->wait()
-//   PUT <id> <mailbox> <bytes>                         Mailbox::put_init()->start()->wait()   (blocking rendez-vous)
+//   C <id> <src> <dst> <bytes>                         Comm::sendto_init(src,dst)...->start()->wait()   (set_rate is refused on these)
+//   PUT <id> <mailbox> <bytes> <rate|-1>               Mailbox::put_init()[->set_rate()]->start()->wait()   (blocking rendez-vous)
 //   GET <id> <mailbox>                                 Mailbox::get_init()->start()->wait()
 //   AZ <actor> <d1> <d2>                               sleep d1; Actor::suspend() of that actor if it still runs; sleep d2; resume()
 //   G <n> <z>                                          the next n lines (E / C) are started together; then the z following control
@@ -180,11 +180,9 @@ static sg4::ActivityPtr make(const std::string& line, long& id)
   }
   if (k == "C") {
     std::string s, d;
-    double sz, rate;
-    is >> s >> d >> sz >> rate;
+    double sz;
+    is >> s >> d >> sz;
     auto c = sg4::Comm::sendto_init(hosts.at(s), hosts.at(d))->set_payload_size(sz);
-    if (rate > 0)
-      c->set_rate(rate);
     c->set_name("a" + std::to_string(id));
     return c;
   }
@@ -245,10 +243,12 @@ static void actor(std::string me, std::vector<std::string> script)
     } else if (k == "PUT") {
       long id;
       std::string mb;
-      double sz;
-      is >> id >> mb >> sz;
+      double sz, rate;
+      is >> id >> mb >> sz >> rate;
       static char payload = 'x';
       auto c = sg4::Mailbox::by_name(mb)->put_init(&payload, (uint64_t)sz);
+      if (rate > 0)
+        c->set_rate(rate);
       c->set_name("a" + std::to_string(id));
       begin(c, id, 'M');
       end(id);
